@@ -208,8 +208,8 @@ Qed.
 (* the Prev chain                                                                          *)
 (* ====================================================================================== *)
 Inductive chain_lt (buf : bytes) : Z -> option obj -> list xref -> Prop :=
-| chain_nil ub prev : (forall p, prev <> Some (OInt p)) -> chain_lt buf ub prev []
-| chain_cons ub p px pt secs :
+| clt_nil ub prev : (forall p, prev <> Some (OInt p)) -> chain_lt buf ub prev []
+| clt_cons ub p px pt secs :
     (0 <= p < ub)%Z -> Z.to_N p <= Loader.blen buf ->
     xref_and_trailer buf (Z.to_N p) = SOk (px, pt) ->
     chain_lt buf p (dict_get pt Xref.K_Prev) secs ->
@@ -449,7 +449,7 @@ Proof.
     + rewrite merge_is_overlay; [rewrite Hent; reflexivity | exact Hsort' | rewrite Hent; exact Hsort].
     + intro rest. split; [apply Hxt'|]. rewrite Hprev.
       destruct (Hch (suffix ++ rest)) as [Hx0 Hc0]. rewrite app_assoc in Hx0, Hc0.
-      apply (chain_cons _ _ _ x0 t0).
+      apply (clt_cons _ _ _ x0 t0).
       * lia.
       * rewrite N2Z.id. unfold Loader.blen in *. rewrite !app_length. lia.
       * rewrite N2Z.id. exact Hx0.
